@@ -15,8 +15,9 @@ EXPLANATION = ("query_exact / query_tree_exact are proved for every array state 
                "executes wfCheck (in Lean) on the implementation's arrays after every operation, compares the "
                "full state with the faithful array model exactly, and compares every query with brute force")
 PARTIAL = {
-    "insertLeaf_refines": "array-level insert_leaf implements T.insert: not proved; checked at run time by wfCheck "
-                          "on the implementation's arrays + exact state equality with the array model",
+    "insert_index_list": "AabbTree.insert_index_list is modelled and compared exactly, but no theorem speaks about it",
+    "Batch.Ok": "history_wf assumes admissible calls: boxes with lo <= hi, external data of the batch's length, a real "
+                "permutation for shuffle; sort ties are a permutation parameter",
 }
 ASSUMPTIONS = ["np.random.shuffle produces a permutation (the model takes the permutation as a parameter)",
                "np.argsort order among equal keys is unspecified: sort-mode batches with equal lo0 keys are "
@@ -25,14 +26,18 @@ TRUSTED = ["aabb_tree.py is modelled in full (class bookkeeping, insert_leaf, fi
            "all_aabbs_overlap, aabb_overlap, _merge_aabb, _aabb_volume); print_aabb_tree_recursive is not modelled"]
 
 MANIFEST = dict(
-    text=("Lean theorems query_exact / query_tree_exact / empty_query_ok hold for every array state accepted by the "
-          "decidable wfCheck (proved sound), history_leaves for every insertion history on the tree layer; the "
-          "array model of aabb_tree.py is compared exactly (full arrays after every op) with the implementation and "
-          "wfCheck is executed in Lean on the implementation's arrays after every operation; brute-force oracle on "
-          "the real code."),
+    text=("Lean theorems on the faithful ARRAY model of aabb_tree.py: history_wf (for every list of insertion batches - "
+          "any sizes incl. 0, modes none/shuffle(any permutation)/sort, with or without external data - no call errors, "
+          "the state passes wfCheck, the leaves are exactly the inserted boxes and ext[row] is the datum supplied with "
+          "that box), insertLeaf_refines / insertMany_refines (array-level insert_leaf implements the tree-level "
+          "insertion), query_exact / query_tree_exact / history_query_exact (queries return exactly the overlapping "
+          "inserted boxes, each once, never out of range), empty_query_ok. Link theorems tie regenerated kernels "
+          "(aabb_overlap, _merge_aabb, _aabb_volume: translated from today's source by py2lean) to the model by rfl. "
+          "The model is compared exactly (full arrays after every op) with the implementation, wfCheck is executed in "
+          "Lean on the implementation's arrays, and a brute-force oracle runs on the real code."),
     note=("trusted: Lean kernel + Mathlib, axioms propext/Classical.choice/Quot.sound; exact-real semantics of box "
-          "coordinates (only min/max/<=/-/* are used; min/max/<= are exact in floats); insertLeaf_refines is checked at "
-          "run time, not proved; correspondence harness (sampling + corpus)."),
+          "coordinates (only min/max/<=/-/* are used; min/max/<= are exact in floats); py2lean translator for the three "
+          "kernels; correspondence harness (sampling + corpus) for everything else."),
     technique="Lean 4 proof on hand-written model + correspondence (exact state equality, Lean-run wfCheck on impl arrays)",
     design="§7 C05")
 
@@ -46,10 +51,15 @@ MODES = ["none", "sort", "shuffle"]
 
 
 # ------------------------------------------------------------------ generation
-def lattice_box(rng):
+def lattice_box(rng, flat=()):
+    """flat: axes on which every box of the history is degenerate at the same coordinate
+    (coplanar rectangles, collinear intervals, points: zero volume however large the box grows)"""
     vals = [-2, -1.5, -1, -0.5, 0, 0.5, 1, 1.5, 2, 3]
     b = []
-    for _ in range(3):
+    for ax in range(3):
+        if ax in flat:
+            b.append([0.5, 0.5])
+            continue
         lo = rng.choice(vals)
         kind = rng.random()
         if kind < 0.15:
@@ -72,9 +82,13 @@ def general_box(rng):
 
 def gen_batch(rng, stream, mode, nmax):
     n = rng.choice([0, 1, 1, 2, 3, 4, 5, nmax]) if nmax > 0 else 0
-    mk = lattice_box if stream == "L" else general_box
+    if stream.startswith("F"):
+        flat = {"F1": (2,), "F2": (1, 2), "F3": (0, 1, 2), "F0": (0,)}[stream]
+        mk = lambda r: lattice_box(r, flat)  # noqa
+    else:
+        mk = lattice_box if stream == "L" else general_box
     boxes = [mk(rng) for _ in range(n)]
-    if stream == "L" and n >= 2 and rng.random() < 0.3:
+    if stream != "G" and n >= 2 and rng.random() < 0.3:
         boxes[-1] = [list(x) for x in boxes[0]]  # duplicate box
     tie = False
     if mode == "sort":
@@ -113,8 +127,12 @@ def gen_history(rng, stream):
             ops.append(gen_ins(rng, stream, ext_counter))
             ops.append({"op": "dump"})
         elif r < 0.85:
-            mk = lattice_box if stream == "L" else general_box
-            ops.append({"op": "q", "box": mk(rng)})
+            if stream.startswith("F"):
+                fl = {"F1": (2,), "F2": (1, 2), "F3": (0, 1, 2), "F0": (0,)}[stream]
+                ops.append({"op": "q", "box": lattice_box(rng, fl if rng.random() < 0.7 else ())})
+            else:
+                mk = lattice_box if stream == "L" else general_box
+                ops.append({"op": "q", "box": mk(rng)})
         else:
             k = rng.choice([0, 1, 2])
             c2 = [200000]
@@ -272,8 +290,8 @@ def oracle_history(ops, res):
             inserted += [(tuple(map(tuple, b)), e) for b, e in zip(op["boxes"], ext)]
         st = r.get("state")
         if op["op"] == "q":
-            got = sorted((tuple(map(tuple, st["aabbs"][i])), st["ext"][i]) if 0 <= i < len(st["aabbs"])
-                         else ("oob", i) for i in r["res"])
+            got = sorted((tuple(map(tuple, st["aabbs"][i])), st["ext"][i])
+                         if (0 <= i < len(st["aabbs"]) and i < len(st["ext"])) else (("oob",), i) for i in r["res"])
             want = sorted((b, e) for (b, e) in inserted if overlap(b, op["box"]))
             if got != want:
                 bad.append(("query", {"box": op["box"], "got": got, "want": want}))
@@ -400,7 +418,7 @@ def gen_all(ctx, n):
     hists = []
     for i in range(n):
         r = ctx.rng.random()
-        stream = "L" if r < 0.55 else ("G" if r < 0.85 else "M")
+        stream = "L" if r < 0.4 else ("G" if r < 0.65 else ("M" if r < 0.8 else ctx.rng.choice(["F0", "F1", "F2", "F3"])))
         hists.append((stream, gen_history(ctx.rng, stream)))
     return hists
 
